@@ -111,6 +111,23 @@ def _template_job():
                 rec.update(v)
                 rec["events"] = ev if len(ev) <= 1500 else None
                 out.append(rec)
+    # function bodies that fold to the identity: the FunctionProto's output would be its input
+    from harness import userfns as _U
+
+    for nm in ("fn_identity", "fn_transpose_pair", "fn_reshape_roundtrip", "fn_same_dtype_cast"):
+        for kw in ({}, {"enable_double_precision": True}):
+            rec = {"key": f"fnbody::{nm}::{json.dumps(kw, sort_keys=True)}", "status": "ok"}
+            try:
+                m = jax2onnx.to_onnx(lambda x, f=getattr(_U, nm): f(x) + 1.0, [(2, 3)], **kw)
+            except Exception as ex:  # noqa: BLE001
+                rec["status"] = "export_failed"
+                rec["why"] = f"{type(ex).__name__}: {str(ex)[:160]}"
+                out.append(rec)
+                continue
+            v, ev = validity(m)
+            rec.update(v)
+            rec["events"] = ev if len(ev) <= 1500 else None
+            out.append(rec)
     for name, (fn, specs, kw0) in faultjobs.programs().items():
         for kw in ({}, {"return_mode": "ir"}, {"enable_double_precision": True}):
             kk = dict(kw0)
@@ -170,7 +187,7 @@ def run(ctx: Ctx) -> None:
         for rec in out["result"]:
             if rec["status"] == "export_failed":
                 stats["export_failed"] += 1
-                if rec["key"].startswith(("template::", "program::", "fnpair::")):
+                if rec["key"].startswith(("template::", "program::", "fnpair::", "fnbody::")):
                     ctx.extra.setdefault("template_export_failures", []).append({rec["key"]: rec["why"]})
                 continue
             stats["ok"] += 1
